@@ -25,20 +25,31 @@ var tbTimes = func() []hms {
 
 var c04Times = append([]hms{{0, 0, 1}, {11, 59, 59}, {12, 0, 0}, {12, 0, 1}, {23, 59, 58}, {12, 30, 15}}, tbTimes...)
 
-var dayStepsFull = []int{0, 1, -1, 2, -2, 29, -29, 30, -30, 31, -31, 59, -59, 354, -354, 355, -355, 365, -365, 366, -366, 384, -384, 1000, -1000, 36525, -36525}
-var dayStepsQuick = []int{0, 1, -1, 2, -2, 30, -30, 31, -31, 59, -59, 365, -365, 366, -366, 1000, -1000, 36525, -36525}
+var dayStepsFull = []int{146097, -146097, 146096, -146098, 292194, -292194, 1460970, -1460970, 0, 1, -1, 2, -2, 29, -29, 30, -30, 31, -31, 59, -59, 354, -354, 355, -355, 365, -365, 366, -366, 384, -384, 1000, -1000, 36525, -36525}
+var dayStepsQuick = []int{146097, -146097, 146096, -146098, 292194, -292194, 1460970, -1460970, 0, 1, -1, 2, -2, 30, -30, 31, -31, 59, -59, 365, -365, 366, -366, 1000, -1000, 36525, -36525}
+
+// c04Targets: structural days that every state steps to (first and last day, both sides of the 1582 switch, the
+// first day of 1582 and the leap days around a Julian/Gregorian century year)
+var c04Targets = []int{r1JDN(1, 1, 1), r1JDN(9998, 12, 31), r1JDN(1582, 10, 4), r1JDN(1582, 10, 15), r1JDN(1582, 1, 1), r1JDN(1500, 2, 29), r1JDN(1600, 2, 29), r1JDN(2000, 2, 29)}
 
 // c04CmpTimes: moment alphabet of the comparison matrix (neighbouring seconds, minutes and hours at both ends of the day)
 var c04CmpTimes = []hms{{0, 0, 0}, {0, 0, 1}, {0, 0, 59}, {0, 1, 0}, {0, 59, 59}, {1, 0, 0}, {12, 30, 15}, {12, 30, 16}, {12, 31, 15}, {13, 30, 15}, {23, 59, 0}, {23, 59, 58}, {23, 59, 59}}
 
-var hourSteps = []int{1, -1, 23, -23, 24, -24, 25, -25, 1000, -1000}
-var monthSteps = []int{1, -1, 11, -11, 12, -12, 13, -13, 1200, -1200}
-var yearSteps = []int{1, -1, 4, -4, 100, -100, 400, -400}
+var hourSteps = []int{3506328, -3506328, 1, -1, 23, -23, 24, -24, 25, -25, 1000, -1000}
+var monthSteps = []int{4800, -4800, 1, -1, 11, -11, 12, -12, 13, -13, 1200, -1200}
+var yearSteps = []int{1, -1, 4, -4, 100, -100, 400, -400, 800, -800, 2000, -2000}
 
 var jdnLast = jdnGregorian(9999, 12, 31)
 
+// solarEq: the object carries exactly these fields and answers like that date-time — the weekday of that day and a
+// Julian Day within the rounding half second of it (an object reached by stepping or conversion must not remember
+// anything else about where it came from).
 func solarEq(s *calendar.Solar, y, m, d, h, mi, sec int) bool {
-	return s.GetYear() == y && s.GetMonth() == m && s.GetDay() == d && s.GetHour() == h && s.GetMinute() == mi && s.GetSecond() == sec
+	if !(s.GetYear() == y && s.GetMonth() == m && s.GetDay() == d && s.GetHour() == h && s.GetMinute() == mi && s.GetSecond() == sec) {
+		return false
+	}
+	j := r1JDN(y, m, d)
+	return s.GetWeek() == r1Weekday(j) && math.Abs(s.GetJulianDay()-(float64(j)-0.5+float64(h*3600+mi*60+sec)/86400)) <= 0.5001/86400
 }
 
 func init() {
@@ -48,7 +59,7 @@ func init() {
 		Assume: []string{"R1 integer proleptic Julian/Gregorian day-number arithmetic in the harness is correct (cross-checked against itself: r1FromJDN(r1JDN(x))==x on every state)",
 			"float64 Julian Day comparison uses a 2e-9 day tolerance (4 ulp at 2.4e6)"},
 		Shards: func(tier string, seed int64) []Shard {
-			sh := yearShards(tier, seed, 9998, "days")
+			sh := yearShardsWith(tier, seed, 9998, "days", cycleYears())
 			sh = append(sh, Shard{Kind: "seconds", Tier: tier, Seed: seed})
 			return sh
 		},
@@ -192,8 +203,17 @@ func runC04(w *W) {
 					}
 				}
 			}
-			// day steps
-			for _, n := range steps {
+			// day steps: the step alphabet (incl. whole 400-year cycles of 146097 days) and, from every state, the step that
+			// lands exactly on each structural day
+			stepsHere := append([]int{}, steps...)
+			for k, tj := range c04Targets {
+				// (a far step costs the library one loop iteration per month crossed: the quick tier takes one target per
+				// state, rotating with the day number; the thorough tier all of them)
+				if tj != j && (w.Thorough() || k == j%len(c04Targets)) {
+					stepsHere = append(stepsHere, tj-j)
+				}
+			}
+			for _, n := range stepsHere {
 				tj := j + n
 				if tj < jdnFirst || tj > jdnLast {
 					continue
